@@ -7,7 +7,7 @@
            character tables written down here from ISO 6.5, NOT taken from the generated file.
    Part 3: reference unescaper for quoted atoms (ISO 6.4.2.1) and the reference reader for one atom text.
    Part 4: functional-notation (canonical) reference writer, shared with C15. *)
-From Coq Require Import NArith ZArith List Bool.
+From Coq Require Import NArith ZArith List Bool String Ascii.
 From V Require Import Base.Term Gen.CharClass.
 Import ListNotations.
 Open Scope N_scope.
@@ -196,6 +196,17 @@ Fixpoint write_canonical_ref (t : term) : list N :=
   end.
 
 (* ------------------------------------------------------------------ comparison functions of the correspondence *)
+(* code point lists are passed to the model as strings of decimal numbers separated by blanks (fast to elaborate) *)
+Fixpoint codes_go (s : string) (cur : option N) : list N :=
+  match s with
+  | EmptyString => match cur with Some n => [n] | None => [] end
+  | String a r =>
+    let c := N_of_ascii a in
+    if (48 <=? c) && (c <=? 57)
+    then codes_go r (Some (match cur with Some n => n * 10 + (c - 48) | None => c - 48 end))
+    else match cur with Some n => n :: codes_go r None | None => codes_go r None end
+  end.
+Definition codes (s : string) : list N := codes_go s None.
 Definition text_eq (a b : list N) : bool := list_eqb N.eqb a b.
 (* one atom: writeq text, write_term(quoted(true)) text, format ~q text, write text, what the implementation read back
    from the model's text, and the reference reader on the implementation's text *)
